@@ -69,6 +69,10 @@ def run(ctx) -> None:
 
     ctx.rule("C12.detach", "finite domain: add_metabolites copies a metabolite iff it belongs to a model that is not the reaction's (shared with C12)", floor=1)
     c12.check_foreign_copy_guard(ctx)
+    from . import replayform
+
+    ctx.rule("C02.replay", "bounded evaluation: after every editing operation of the pool (alone, in ordered pairs, inside contexts, refused ones) all cross-references of the stand-in model agree", floor=1)
+    ctx.guard(replayform.check_replay, ctx, "C02.replay", "c02")
     ctx.rule("C02.group", "finite evaluation: Group.add_members adds every given object, remove_members removes exactly those", floor=1)
     ctx.guard(genesform.check_group_members, ctx, "C02.group")
     from . import stores
@@ -633,6 +637,25 @@ def check_index(ctx) -> None:
                     ctx.ok("C02.index", fn, st, f"id of a listed {listed[0]} changed and the list re-indexed")
                 else:
                     ctx.bad("C02.index", fn, st, f"the id of a listed {listed[0]} is changed without re-indexing the model list", path=describe_path(esc))
+                    continue
+                # ... and nothing consults the list's index while it is stale (a later round of the same loop looking
+                # an identifier up, deciding between 'rename' and 'merge' by what the list seems to contain)
+                lname = {"Gene": "genes", "Group": "groups"}[listed[0]]
+                lookups = set()
+                for n in walk_local(fn.node):
+                    hit = False
+                    if isinstance(n, ast.Call) and isinstance(n.func, ast.Attribute) and n.func.attr in ("index", "get_by_id", "has_id", "get_by_any", "query") and norm(ctx.inf.expand_alias(fn, n.func.value)).split(".")[-1] == lname:
+                        hit = True
+                    elif isinstance(n, ast.Compare) and any(isinstance(op, (ast.In, ast.NotIn)) for op in n.ops) and any(norm(ctx.inf.expand_alias(fn, c_)).split(".")[-1] == lname for c_ in n.comparators):
+                        hit = True
+                    if hit and not (isinstance(n, ast.Call) and ctx.eff.is_registration(fn, n)):
+                        lookups |= _nodes(g, n)
+                seen_ = g.reach(list(_nodes(g, e.node)), avoid=lambda n: n in reidx, edge_ok=no_exc)
+                stale = [n for n in lookups if n in seen_]
+                if stale:
+                    ctx.bad("C02.index", fn, st, f"after the id of a listed {listed[0]} is changed, model.{lname} is consulted by identifier (line {min(n.lineno for n in stale)}) before it is re-indexed: the lookup still answers for the old identifiers, so a second entry that maps to the same new identifier is taken for a new name and the list ends up with two objects of one identifier", path=describe_path(g.path_to(seen_, min(stale, key=lambda n: n.lineno))))
+                else:
+                    ctx.ok("C02.index", fn, f"{norm(st, 40)} / lookups", f"no lookup in model.{lname} is reachable between the id change and the re-index ({len(lookups)} lookup site(s))")
 
 
 # ------------------------------------------------------------------------------------------ rule
